@@ -139,6 +139,32 @@ def jac_differentiable(cx, build="grad_on", which="jac"):
     return "ok"
 
 
+def jac_aliased(cx, case="same_tensor_twice"):
+    """the Jacobian w.r.t. ONE argument position at the given point, when the same tensor also occupies another position
+    (partial, not total derivative); and an argument the function does not depend on (zero operator)"""
+    x = cx.sym("x", (2,), requires_grad=True)
+    y = cx.sym("y", (2,), requires_grad=True)
+    if case == "same_tensor_twice":
+        f = lambda a, b: a * a * b
+        op = jac(f, (x, x), idxs=0)
+        x2 = x.detach().clone().requires_grad_()
+        J = _dense_jac(f(x2, x.detach()), x2).detach()        # partial derivative w.r.t. position 0 at the point (x, x)
+        v = cx.sym("v", (2,))
+        with torch.no_grad():
+            cx.claim_eq("partial Jacobian: mv", op.mv(v), torch.matmul(J, v))
+            cx.claim_eq("partial Jacobian: rmv", op.rmv(v), torch.matmul(J.transpose(-2, -1), v))
+            cx.claim_eq("partial Jacobian: fullmatrix", op.fullmatrix(), J)
+    else:
+        f = lambda a, b: a * 2.0
+        op = jac(f, (x, y), idxs=1)
+        v = cx.sym("v", (2,))
+        with torch.no_grad():
+            cx.claim_true("shape", tuple(op.shape) == (2, 2))
+            cx.claim_eq("zero Jacobian: mv", op.mv(v), torch.zeros_like(v))
+            cx.claim_eq("zero Jacobian: rmv", op.rmv(v), torch.zeros_like(v))
+    return "ok"
+
+
 def jac_newparams(cx):
     """after uselinopparams with new tensors the products follow the new values (cache invalidation)"""
     x = cx.sym("x", (2,), requires_grad=True)
@@ -340,6 +366,8 @@ def configs(tier):
     add("hess/list01", hess_products, idxs=[0, 1])
     add("index_validation", index_validation)
     add("hess/linear_argument", hess_products, idxs=[1], linear=True)
+    add("jac/aliased_arguments", jac_aliased, case="same_tensor_twice")
+    add("jac/unused_argument", jac_aliased, case="unused")
     if tier == "thorough":
         big = {"budget_s": 1500, "timeout_ms": 60000}
         add("jac/pure/all/batch21", jac_products, kind="pure", idxs=None, bshape=(2, 1), opts=big)
